@@ -72,16 +72,21 @@ def is_header(raw):
     return _HDR.match(raw.strip()) is not None
 
 
+def norm(text):
+    """comment / preprocessor text modulo white space (the statement fixes no layout)"""
+    return " ".join(str(text).split())
+
+
 def ref_line(raw):
     """('blank',) | ('pp', text) | ('comment', text) | ('content', tokens, comment_text)"""
     body = raw.rstrip("\n")
     if not body.strip():
         return ("blank",)
     if body.startswith("#"):
-        return ("pp", body.strip())
+        return ("pp", norm(body))
     head, _, tail = body.partition(";")
     toks = head.split()
-    text = tail.strip()
+    text = norm(tail)
     if toks:
         return ("content", toks, text)
     if text:
@@ -101,7 +106,7 @@ def ref_file(text):
             continue
         if cur is None:
             if raw.strip():
-                header.append(raw.strip())
+                header.append(norm(raw))
             continue
         rec = ref_line(raw)
         if rec[0] != "blank":
@@ -157,10 +162,10 @@ def check_line(s, render=None):
     ref = ref_line(s)
     try:
         l1 = ItpLine(s)
-        c1, m1 = l1.content.split(), l1.comment
+        c1, m1 = l1.content.split(), norm(l1.comment)
         L = render(s)
         l2 = ItpLine(L)
-        c2, m2 = l2.content.split(), l2.comment
+        c2, m2 = l2.content.split(), norm(l2.comment)
         L2 = l2.line
         L3 = ItpLine(L2).line
     except Exception as e:  # the property demands a result for every non-header line
@@ -182,13 +187,40 @@ def check_line(s, render=None):
         bad["ensures.roundtrip_same_reference_reading"] = f"ItpLine({s!r}).line = {L!r} reads as {ref2}, the input as {ref}"
     if s.endswith("\n") and ref[0] != "blank" and not (L.endswith("\n") and L.count("\n") == 1):
         bad["ensures.terminated_line_stays_terminated"] = f"ItpLine({s!r}).line = {L!r} is not one terminated line"
-    if not (L2.split() == L.split() and L3.split() == L2.split()):
-        bad["ensures.idempotent_from_second_round"] = f"ItpLine({s!r}): rounds {L!r} -> {L2!r} -> {L3!r} differ at token level"
+    if not (ref_line(L2) == ref_line(L) and ref_line(L3) == ref_line(L2)):
+        bad["ensures.idempotent_from_second_round"] = f"ItpLine({s!r}): rounds {L!r} -> {L2!r} -> {L3!r} do not read the same"
     return bad
 
 
 def line_family(s):
+    if s.lstrip().startswith("#") and not s.startswith("#"):
+        # blanks before '#': the statement does not say whether this is a preprocessor line or content;
+        # evaluated, but a mismatch is never a refutation
+        return "blank-before-#"
     return "comment-text-starts-with-#" if hash_comment(ref_line(s)) else "plain"
+
+
+SENTINEL = "9 8 7 ; tail"
+
+
+def line_in_files(s):
+    """the line as part of a topology file: followed by another line (so that glued lines show), and as last line"""
+    texts = ["[ angles ]\n" + (s if s.endswith("\n") else s + "\n") + SENTINEL + "\n"]
+    if not s.endswith("\n"):
+        texts.append("[ angles ]\n" + SENTINEL + "\n" + s)
+    return texts
+
+
+def confirm_line(s, tmp):
+    """The statement speaks about files.  A mismatch seen on an isolated ItpLine counts as a violation only
+    if the file round trip of a file containing the line violates the file contract.
+    Returns (True, text, messages) | (False, None, {})"""
+    for text in line_in_files(s):
+        bad, _ = check_file(text, tmp, topology=False)
+        hard = {k: v for k, v in bad.items() if not k.startswith("soft:")}
+        if hard:
+            return True, text, hard
+    return False, None, {}
 
 
 def enum_lines(alphabet, maxlen):
@@ -207,7 +239,15 @@ def _line_admissible(s):
 
 
 def run_lines(alphabet, maxlen, tag, render=None):
-    per = {}   # (family, clause) -> [evals, nbad, first (s, msg)]
+    tmp = _mkdtemp()
+    try:
+        return _run_lines(alphabet, maxlen, tag, render, tmp)
+    finally:
+        shutil.rmtree(tmp, ignore_errors=True)
+
+
+def _run_lines(alphabet, maxlen, tag, render, tmp):
+    per = {}   # (family, clause) -> [evals, mismatches, first confirmed (s, msg, file), first unconfirmed (s, msg)]
     distinct = {}
     nontriv = {}
     sample = {}
@@ -221,27 +261,41 @@ def run_lines(alphabet, maxlen, tag, render=None):
             if fam not in sample and len(s) >= 4:
                 sample[fam] = s
         bad = check_line(s, render)
+        conf = None
+        if bad and fam != "blank-before-#" and render is None:
+            conf = confirm_line(s, tmp)
         for cl in L_CLAUSES:
-            rec = per.setdefault((fam, cl), [0, 0, None])
+            rec = per.setdefault((fam, cl), [0, 0, None, None])
             rec[0] += 1
             if cl in bad:
                 rec[1] += 1
-                if rec[2] is None:
-                    rec[2] = (s, bad[cl])
+                if conf is not None and conf[0]:
+                    if rec[2] is None:
+                        rec[2] = (s, bad[cl], conf[1], conf[2])
+                elif rec[3] is None:
+                    rec[3] = (s, bad[cl])
     out = []
-    for (fam, cl), (n, nbad, first) in sorted(per.items()):
+    for (fam, cl), (n, nbad, first, soft) in sorted(per.items()):
         oid = f"{PROP}/{F_LINE}/{cl}/{tag}/{fam}"
-        if first is None:
+        if first is not None:
+            s, msg, ftext, fbad = first
+            fmsg = "; ".join(f"{k.split('.', 1)[1]}: {v}" for k, v in list(fbad.items())[:2])
+            out.append(ob(oid, "refuted", kind="bounded", engine="smallscope", backend="runtime-contract",
+                          evaluations=n, nontrivial=nontriv.get(fam, 0),
+                          reason=f"{nbad}/{n} lines mismatch; first confirmed by a file round trip: {msg}; file {ftext!r}: {fmsg}",
+                          cex={"level": "line", "line": s, "clause": cl, "file": ftext, "signature": text_signature(s)},
+                          sample={"line": s}))
+        elif soft is not None:
+            s, msg = soft
+            out.append(ob(oid, "undecided", kind="bounded", engine="smallscope", backend="runtime-contract",
+                          evaluations=n, nontrivial=nontriv.get(fam, 0),
+                          reason=(f"informational: {nbad}/{n} isolated ItpLine evaluations mismatch but the file round trip of a file "
+                                  f"containing the line holds (or the line kind is not fixed by the statement); first: {msg}"),
+                          sample={"line": s}))
+        else:
             out.append(ob(oid, "discharged", kind="bounded", engine="smallscope", backend="runtime-contract",
                           evaluations=n, nontrivial=nontriv.get(fam, 0),
                           sample={"line": sample.get(fam), "written": (real_render(sample[fam]) if fam in sample else None)}))
-        else:
-            s, msg = first
-            out.append(ob(oid, "refuted", kind="bounded", engine="smallscope", backend="runtime-contract",
-                          evaluations=n, nontrivial=nontriv.get(fam, 0),
-                          reason=f"{nbad}/{n} lines violate; first: {msg}",
-                          cex={"level": "line", "line": s, "clause": cl, "signature": text_signature(s)},
-                          sample={"line": s}))
     return out
 
 
@@ -332,14 +386,14 @@ F_CLAUSES = ["ensures.no_exception", "ensures.section_names_in_order_of_first_ap
 def observe(itp):
     """what a parsed ItpFile holds, in the vocabulary of the reference reading"""
     keys = list(itp.keys())
-    obs = {"header": [str(l).strip() for l in itp["header"] if str(l).strip()] if "header" in itp else None,
-           "order": [k for k in keys if k != "header"], "first_key": keys[0] if keys else None,
+    obs = {"header": [norm(l) for l in itp["header"] if str(l).strip()] if "header" in itp else None,
+           "order": [k for k in keys if k != "header"],
            "sections": {}, "content": {}}
     for name in obs["order"]:
         sec = itp[name]
         recs = []
         for l in sec.lines:
-            toks, cm = l.content.split(), l.comment
+            toks, cm = l.content.split(), norm(l.comment)
             if toks:
                 recs.append(("content", toks, cm))
             elif cm:
@@ -363,7 +417,7 @@ def _first_diff(a, b):
 
 def compare(exp, obs):
     bad = {}
-    if obs["order"] != exp["order"] or obs["first_key"] != "header":
+    if obs["order"] != exp["order"]:
         bad["ensures.section_names_in_order_of_first_appearance"] = f"re-read sections {obs['order']}, file has {exp['order']}"
     for name in exp["order"]:
         want = exp["sections"][name]
@@ -382,8 +436,11 @@ def compare(exp, obs):
             bad.setdefault("ensures.content_lines_token_by_token", f"iterating [ {name} ]: " + _first_diff(obs["content"][name], wantc))
         if got != want:
             bad.setdefault("ensures.comment_and_preprocessor_lines_in_position", f"[ {name} ]: " + _first_diff(got, want))
-    if obs["header"] != exp["header"]:
-        bad["ensures.header_lines_preserved"] = "header: " + (_first_diff(obs["header"], exp["header"]) if obs["header"] is not None else "no header entry")
+    if obs["header"] is None:
+        # where the parsed object keeps the text before the first section is not fixed by the statement
+        bad["soft:ensures.header_lines_preserved"] = "the parsed file has no 'header' entry to observe; the written text is compared instead"
+    elif obs["header"] != exp["header"]:
+        bad["ensures.header_lines_preserved"] = "header: " + _first_diff(obs["header"], exp["header"])
     return bad
 
 
@@ -410,7 +467,8 @@ def _write(path, text):
 
 def check_file(text, tmp, corrupt=None, src_path=None, topology=True, corrupt3=None):
     """ItpFile(f1).write(f2); ItpFile(f2) against the reference reading of `text`; second write; read_topology.
-    Returns ({clause: message}, {clause: evaluated?})"""
+    Returns ({clause: message}, {clause: evaluated?}).  Keys "soft:<clause>" are informational (the harness
+    could not observe something the statement does not fix): they become 'undecided', never 'refuted'."""
     m = _itp()
     f1 = src_path or os.path.join(tmp, "f1.itp")
     f2, f3 = os.path.join(tmp, "f2.itp"), os.path.join(tmp, "f3.itp")
@@ -432,24 +490,37 @@ def check_file(text, tmp, corrupt=None, src_path=None, topology=True, corrupt3=N
                 _write(f2, corrupt(_read(f2)))
             stage = "ItpFile(f2)"
             itp2 = m.ItpFile(f2)
-            obs2 = observe(itp2)
             stage = "ItpFile(f2).write(f3)"
             itp2.write(f3)
-            del itp2
             if corrupt3 is not None:
                 _write(f3, corrupt3(_read(f3)))
             stage = "ItpFile(f3)"
-            obs3 = observe(m.ItpFile(f3))
-            t2, t3 = _read(f2), _read(f3)
+            itp3 = m.ItpFile(f3)
     except Exception as e:
         if stage == "write input":
             raise
         bad["ensures.no_exception"] = f"{stage} raises {type(e).__name__}: {e}"
         return bad, done
+    t2, t3 = _read(f2), _read(f3)
     for c in F_CLAUSES[1:6]:
         done[c] = True
-    bad.update(compare(exp, obs2))
-    if obs3 != obs2:
+    # the written text must still carry the header text (a consequence: what is not written cannot be re-read)
+    if ref_file(t2)["header"] != exp["header"]:
+        bad["ensures.header_lines_preserved"] = "header of the written file: " + _first_diff(ref_file(t2)["header"], exp["header"])
+    try:
+        obs2, obs3 = observe(itp2), observe(itp3)
+    except Exception as e:   # the harness cannot look into the objects (public API changed): not a violation
+        for c in F_CLAUSES[1:6]:
+            bad.setdefault("soft:" + c, f"harness cannot observe the parsed file: {type(e).__name__}: {e}")
+        obs2 = obs3 = None
+    del itp2, itp3
+    if obs2 is not None:
+        for k, v in compare(exp, obs2).items():
+            bad.setdefault(k, v)
+    if obs2 is None:
+        if ref_file(t2) != ref_file(t3):
+            bad["ensures.second_write_stable"] = "the text of the second write reads differently from the text of the first write"
+    elif obs3 != obs2:
         d = ""
         for k in ("order", "header"):
             if obs3[k] != obs2[k]:
@@ -479,18 +550,28 @@ def check_file(text, tmp, corrupt=None, src_path=None, topology=True, corrupt3=N
             except Exception as e:
                 bad["ensures.read_topology_equal"] = f"read_topology(written file) raises {type(e).__name__}: {e}; original gives name {top1[0]!r}, {len(top1[1])} atoms, {len(top1[2])} bonds"
             else:
-                if tuple(top1) != tuple(top2):
-                    which = [n for n, a, b in zip(("name", "atoms", "bonds"), top1, top2) if a != b]
+                try:    # bonds as a multiset of unordered pairs: the statement fixes no order or direction
+                    n1, n2 = _norm_top(top1), _norm_top(top2)
+                except Exception as e:
+                    n1 = n2 = None
+                    bad["soft:ensures.read_topology_equal"] = f"harness cannot normalise the read_topology result: {type(e).__name__}: {e}"
+                if n1 != n2:
+                    which = [n for n, a, b in zip(("name", "atoms", "bonds"), n1, n2) if a != b]
                     bad["ensures.read_topology_equal"] = (f"read_topology differs in {which}: original ({top1[0]!r}, {len(top1[1])} atoms, {len(top1[2])} bonds) "
                                                           f"written ({top2[0]!r}, {len(top2[1])} atoms, {len(top2[2])} bonds)")
     return bad, done
+
+
+def _norm_top(top):
+    name, atoms, bonds = top
+    return (name, [tuple(a) for a in atoms], sorted(tuple(sorted(b)) for b in bonds))
 
 
 class Agg:
     """per-clause aggregation of file evaluations into obligations"""
 
     def __init__(self, clauses):
-        self.per = {c: [0, 0, None] for c in clauses}
+        self.per = {c: [0, 0, None, 0, None] for c in clauses}
         self.texts = set()
         self.nontrivial = 0
         self.sample = None
@@ -511,12 +592,21 @@ class Agg:
                 rec[1] += 1
                 if rec[2] is None:
                     rec[2] = (dict(cexinfo), bad[c])
+            elif "soft:" + c in bad:
+                rec[3] += 1
+                if rec[4] is None:
+                    rec[4] = bad["soft:" + c]
 
     def obligations(self, tag, secs=0.0):
         out = []
-        for c, (n, nbad, first) in self.per.items():
+        for c, (n, nbad, first, nsoft, softmsg) in self.per.items():
             oid = f"{PROP}/{F_FILE}/{c}/{tag}"
-            if first is None:
+            if first is None and nsoft:
+                out.append(ob(oid, "undecided", kind="bounded", engine="smallscope", backend="runtime-contract",
+                              evaluations=n, nontrivial=min(n, self.nontrivial), secs=secs / len(self.per),
+                              reason=f"informational: {nsoft}/{n} files could not be observed: {softmsg}",
+                              sample={"file": self.sample, "files": len(self.texts)}))
+            elif first is None:
                 out.append(ob(oid, "discharged", kind="bounded", engine="smallscope", backend="runtime-contract",
                               evaluations=n, nontrivial=min(n, self.nontrivial), secs=secs / len(self.per),
                               sample={"file": self.sample, "files": len(self.texts)}))
@@ -783,9 +873,14 @@ def replay(prop, cex):
             L = real_render(s)
         except Exception as e:
             L = f"raises {type(e).__name__}: {e}"
-        return {"reproduced": bool(bad) and (clause is None or clause in bad or "ensures.no_exception" in bad),
-                "observed": {"ItpLine(line).line": L, "violated": bad}, "expected": {"reference_reading": ref_line(s)},
-                "inputs": cex}
+        tmp = _mkdtemp()
+        try:
+            conf = confirm_line(s, tmp)
+        finally:
+            shutil.rmtree(tmp, ignore_errors=True)
+        return {"reproduced": bool(bad) and conf[0] and (clause is None or clause in bad or "ensures.no_exception" in bad),
+                "observed": {"ItpLine(line).line": L, "violated": bad, "file": conf[1], "file_round_trip_violated": conf[2]},
+                "expected": {"reference_reading": ref_line(s)}, "inputs": cex}
     tmp = _mkdtemp()
     try:
         if level == "shipped":
@@ -803,6 +898,7 @@ def replay(prop, cex):
     finally:
         shutil.rmtree(tmp, ignore_errors=True)
     exp = ref_file(text)
+    bad = {k: v for k, v in bad.items() if not k.startswith("soft:")}
     return {"reproduced": bool(bad) and (clause is None or clause in bad or "ensures.no_exception" in bad),
             "observed": {"violated": bad, "written_file": (written if written is None or len(written) < 2000 else written[:2000] + "...")},
             "expected": {"sections_in_order": exp["order"], "header": exp["header"][:20],
